@@ -27,6 +27,8 @@ int	px_dns_hdr_create(void *hdr, size_t bufsz, uint16_t id, uint16_t flags, size
 /* section: 0 qd, 1 an, 2 ns, 3 ar */
 void	px_dns_hdr_inc(void *hdr, int section, uint16_t val);
 uint16_t px_dns_hdr_cnt(void *hdr, int section);
+void	px_dns_hdr_dec(void *hdr, int section, uint16_t val);
+void	px_dns_hdr_set(void *hdr, int section, uint16_t val);
 int	px_dns_question_add(void *hdr, size_t msg_size, size_t bufsz, int compress, const uint8_t *name, size_t name_len,
 	    uint16_t qtype, uint16_t qclass, size_t *size_ret);
 int	px_dns_rr_add(void *hdr, size_t msg_size, size_t bufsz, int compress, const uint8_t *name, size_t name_len,
